@@ -179,6 +179,24 @@ PROPS = {
         'design_ref': 'DESIGN.md 5 C18',
         'explanation': 'p2p contracts',
     },
+    'C20': {
+        'modules': ['contracts.c20'],
+        'level': 'other',
+        'trusted_base': COMMON_TB,
+        'assumptions': [
+            'BOUNDED + ASSUMED at call sites: MurmurHash3 = published MurmurHash3_x86_32 (reference in specs/bloom.py), 1500 generated (seed, data) pairs per run covering every length mod 4',
+            'BOUNDED: bits set by insert = BIP37 schedule over the reference hash, contains after insert, empty and full (0xff) filters; constructor caps (float sizing); wire round trip incl. membership answers - 600 generated cases each',
+            'the bit-level effect of insert/contains is not proved (only index safety, frames and the empty-data rule are); bit operations on symbolic bytes are handled by an 8-way case split on the mask',
+        ],
+        'level_text': 'Proved: bloom_hash = murmur(i*0xFBA4C795 + tweak mod 2^32, data) mod (8*len(vData)) and lies inside the '
+                      'filter; insert and contains never raise for any filter state - in particular a filter with empty data '
+                      'inserts nothing and matches everything - every byte index is in range, size/tweak/flags/hash count are '
+                      'unchanged; stream_serialize emits var_bytes(data) + <IIB fields. Bounded: hash function, bit schedule, '
+                      'no-false-negatives, caps, wire round trip.',
+        'level_note': 'trusted: pyvc, z3/cvc5, assumed MurmurHash3 contract (bounded-checked), specs/bloom.py',
+        'design_ref': 'DESIGN.md 5 C20',
+        'explanation': 'bloom contracts',
+    },
     'C15': {
         'modules': ['contracts.c15'],
         'level': 'proof',
